@@ -10,7 +10,8 @@ import Ggql.Props.FragCycle
 namespace Ggql.Driver.C03
 open Ggql Ggql.Scan
 
-def cmOf (tb : Tables) (known : List (List UInt8)) : CM := { cmOfTbl tb.valueTbl known with depthLimit := tb.maxParseDepth, listNeedsMember := tb.listNeedsMember }
+def cmOf (tb : Tables) (known : List (List UInt8)) (composite : List (List UInt8) := []) : CM :=
+  { cmOfTbl tb.valueTbl known with depthLimit := tb.maxParseDepth, listNeedsMember := tb.listNeedsMember, condStrict := tb.condStrict, composite := fun t => composite.contains t }
 
 def tailOf : T → Option Tail
   | .atom "eof" => some .eof
@@ -77,11 +78,11 @@ def sigFinding : String → Option String
   (c03r x<signature-or-empty>)                           impl: ret | (crash x<class>) -/
 def handle (tb : Tables) (c impl : T) : String :=
   match c with
-  | .node "c03p" [.atom kind, bs, tl, .node "l" kn] =>
-    match (do let b ← bs.asBytes; let t ← tailOf tl; let k ← optMap T.asBytes kn; pure (b, t, k)) with
+  | .node "c03p" [.atom kind, bs, tl, .node "known" [.node "l" kn, .node "l" cn]] =>
+    match (do let b ← bs.asBytes; let t ← tailOf tl; let k ← optMap T.asBytes kn; let c ← optMap T.asBytes cn; pure (b, t, k, c)) with
     | none => "bad-op"
-    | some (bytes, tail, known) =>
-      let cm := cmOf tb known
+    | some (bytes, tail, known, composite) =>
+      let cm := cmOf tb known composite
       let specOk := isReturn impl
       match kind with
       | "sdl" =>
